@@ -166,6 +166,30 @@ func (w *World) EmitSites() []*EmitSite {
 					cp.Bind[p] = call.Call.Args[i]
 				}
 			}
+			// the oneof wrapper (and with it the frame kind and payload) may be an argument of the constructor
+			if cp.Wrapper == nil {
+				if fv, ok := storesInto(es.Alloc)["Frame"]; ok {
+					if p, isP := stripConv(fv).(*ssa.Parameter); isP {
+						if arg, bound := cp.Bind[p]; bound {
+							if wa, isA := stripConv(arg).(*ssa.Alloc); isA {
+								cp.Wrapper = wa
+								cp.Payload = map[string]ssa.Value{}
+								if k, okK := w.pbNamed(wa.Type()); okK {
+									cp.Kind = k
+								}
+								for k, v := range storesInto(wa) {
+									cp.Payload[k] = v
+									if pa, okP := stripConv(v).(*ssa.Alloc); okP {
+										for k2, v2 := range storesInto(pa) {
+											cp.Payload[k+"."+k2] = v2
+										}
+									}
+								}
+							}
+						}
+					}
+				}
+			}
 			inst = append(inst, &cp)
 			es.Via = call // mark the template as instantiated
 		}
@@ -283,6 +307,10 @@ func (w *World) FieldAccesses() []*FieldAccess {
 					case ssa.CallInstruction:
 						if isSyncType(ft) {
 							fa.Kind = "sync-op"
+						} else if _, isStruct := ft.Underlying().(*types.Struct); isStruct && rootStruct(ft) && staticCallee(y) != nil && w.inRoot(staticCallee(y)) {
+							// method of a helper type of this package called on the nested value: what it does to the
+							// nested value's own fields is recorded for those fields
+							fa.Kind = "nested-method"
 						} else {
 							fa.Write, fa.Kind = true, "addr-escape"
 						}
